@@ -71,7 +71,12 @@ func modelProgram(prog []refmodel.Stmt) *mResult {
 				mids := ids.Take(s.K)
 				main := ids.Take(1)
 				later := ids.Take(s.K2)
-				addRoute("GET", prefix, fmt.Sprintf("/r%d", rn), cat(cat(cat(group, mids...), later...), main...))
+				own := fmt.Sprintf("/r%d", rn)
+				if s.Via == "echo" {
+					// the route's own path starts with the text of the enclosing groups' prefix
+					own = prefix + own
+				}
+				addRoute("GET", prefix, own, cat(cat(cat(group, mids...), later...), main...))
 				res.Routes[len(res.Routes)-1].Any = s.Via == "any"
 				rn++
 			case "notfound":
@@ -167,6 +172,7 @@ func execProgram(prog []refmodel.Stmt, sentinel bool) (pr *progRun_, pv any) {
 		return s
 	}
 	var walk func(stmts []refmodel.Stmt, top bool)
+	gprefix := "" // the concatenated normal forms of the enclosing groups' prefixes
 	pv = try(func() {
 		r := rux.New(rux.HandleMethodNotAllowed)
 		pr.r = r
@@ -178,12 +184,18 @@ func execProgram(prog []refmodel.Stmt, sentinel bool) (pr *progRun_, pv any) {
 				case "group":
 					mw := spare(mk(s.K), s.Spare)
 					body := s.Body
+					saved := gprefix
+					gprefix += refmodel.Norm(s.Prefix, false)
 					r.Group(s.Prefix, func() { walk(body, false) }, mw...)
+					gprefix = saved
 				case "route":
 					mids := mk(s.K)
 					main := mkMain(1)
 					later := mk(s.K2)
 					path := fmt.Sprintf("/r%d", rn)
+					if s.Via == "echo" {
+						path = gprefix + path
+					}
 					rn++
 					var rt *rux.Route
 					switch s.Via {
@@ -246,7 +258,7 @@ func progString(prog []refmodel.Stmt) string {
 				w(s.Body)
 				sb.WriteString("}")
 			case "route":
-				fmt.Fprintf(&sb, "Route%s(mw=%d,laterUse=%d)", map[string]string{"": "", "any": ":Any", "attach": ":NewRoute+Use+AttachTo"}[s.Via], s.K, s.K2)
+				fmt.Fprintf(&sb, "Route%s(mw=%d,laterUse=%d)", map[string]string{"": "", "any": ":Any", "attach": ":NewRoute+Use+AttachTo", "echo": ":own-path-repeats-the-group-prefix"}[s.Via], s.K, s.K2)
 			case "controller", "resource":
 				fmt.Fprintf(&sb, "%s(%q,mw=%d)", s.Kind, s.Prefix, s.K)
 			default:
@@ -450,6 +462,9 @@ func progVariants(mode string, depth int, inGroup bool) []refmodel.Stmt {
 	} else {
 		v = append(v, refmodel.Stmt{Kind: "use", K: 1})
 		v = append(v, refmodel.Stmt{Kind: "route", K: 0}, refmodel.Stmt{Kind: "route", K: 1, K2: 1}, refmodel.Stmt{Kind: "route", K: 1, Via: "attach"})
+		if inGroup {
+			v = append(v, refmodel.Stmt{Kind: "route", K: 0, Via: "echo"})
+		}
 		v = append(v, refmodel.Stmt{Kind: "controller", Prefix: "/c", K: 0}, refmodel.Stmt{Kind: "controller", Prefix: "/c", K: 1, Spare: true})
 		v = append(v, refmodel.Stmt{Kind: "resource", Prefix: "/", K: 0}, refmodel.Stmt{Kind: "resource", Prefix: "/api/", K: 1})
 	}
